@@ -230,7 +230,7 @@ static std::string linesStr(int p)
 static std::string step(const Toks& t)
 {
 	const std::string& op = t[0];
-	static const char* sessionOps[] = { "w", "sb", "ss", "sc", "si", "r", "rl", "end", "seek", "pos", 0 };
+	static const char* sessionOps[] = { "w", "sb", "ss", "sc", "si", "r", "rl", "rlc", "end", "seek", "pos", 0 };
 	bool isSessOp = false;
 	for (int i = 0; sessionOps[i]; i++) if (op == sessionOps[i]) isSessOp = true;
 	if (!isSessOp) closeSess();
@@ -297,7 +297,7 @@ static std::string step(const Toks& t)
 		else *sess->t << v;
 		return "ok";
 	}
-	if (op == "r" || op == "rl" || op == "end" || op == "seek" || op == "pos") {
+	if (op == "r" || op == "rl" || op == "rlc" || op == "end" || op == "seek" || op == "pos") {
 		if (!sess) return "err nosession";
 		if (sess->mode != 0) return "err mode";
 		if (op == "r" && t.size() == 2) {
@@ -316,6 +316,15 @@ static std::string step(const Toks& t)
 			bool r = sess->t->readLine(sess->line);
 			if ((int)strlen(*sess->line) != sess->line.length()) return "err strlen-mismatch";
 			return b01(r) + " " + showBytes(sess->line) + " " + b01(sess->t->end());
+		}
+		if (op == "rlc" && t.size() == 2) {
+			std::string d = unhex(t[1]);
+			if (d.size() != 1) return "bad-op";
+			if (!sess->t) return "err kind";
+			std::string c;
+			if (rawRead(*sess->t->path(), c) && hasNul(c)) return "err nul";
+			String s = sess->t->readLine(d[0]);
+			return showBytes(s) + " " + b01(sess->t->end());
 		}
 		if (op == "end" && t.size() == 1) return b01(sess->t ? sess->t->end() : sess->f->end());
 		if (op == "seek" && t.size() == 2) {
